@@ -56,7 +56,7 @@ MANIFEST = dict(
           "diagonals and Panic Guard elsewhere; IndexMut (single writes and any history of writes) changes exactly the addressed entry or "
           "refuses; convert and transpose equal the dense twin; neg/+/-/scalar* (ring laws) and scalar division (field laws) are the same "
           "operations on the dense twin; the matrix-vector product with the repaired n = 1 branch is the dense twin times the vector (the "
-          "pre-repair product panics on every 1x1 input); det equals mathcomp's \\det of the dense twin over every field (via the continuant "
+          "pre-repair product panics on every 1x1 input), hence additive, subtractive, homogeneous, zero to zero, and the product with the transpose is the adjoint, <y, T x> = <T^T y, x> (tridiag_mul_add / _sub / _scale_vec / _zero / _adjoint); det equals mathcomp's \\det of the dense twin over every field (via the continuant "
           "recurrence, which holds for any arithmetic) and the product of the Thomas pivots; Thomas solve over an exact field is either Ok u "
           "with dense(T)*u = r and every pivot non-zero, or Panic Guard at the first zero pivot, never anything else; over any arithmetic "
           "whose division answers for a non-zero divisor (f64, Complex<f64>) it is Ok with n components or that refusal, never a "
